@@ -32,6 +32,18 @@ CLAIMED = {
     "C18": dict(level="fault_enumeration", ref="DESIGN.md §3 C18",
         text="Crash-point enumeration: for small streams EVERY cut position 0..len, for larger ones every structural boundary (+-1) plus seeded positions; file (shorter file) and pipe (seam answers EOF at byte k); five check modes (findings compared) and views (rows compared); conforming and corrupted multi-link streams; under schedules. Oracle: normal end, findings below the incomplete packet identical to the untruncated run, view rows a prefix.",
         note="Frame messages are compared only when the frame end they quote lies before the cut."),
+    "C07": dict(level="exploration", ref="DESIGN.md §3 C07",
+        text="Well-framed streams whose slot size matches the header's data format (random ITS words with arbitrary headers; conforming streams with layout-preserving corruption) x five check modes x filters x -m/statistics file x file/pipe x schedules; every message's leading offset, 10-byte dump, `current :` RDH row and quoted frame end is compared with the input through the independent walker/decoder.",
+        note="One known finding (layout recognised from payload bytes 10..15 instead of the RDH data format) is listed in known_findings.json by its own site; any other byte-dump/offset mismatch still fails the check."),
+    "C12": dict(level="exploration", ref="DESIGN.md §3 C12",
+        text="(1) word table of the readout-frame views == independent word table for 0..700 words, both formats, padding 0..15, all size residues; (2) planted invalid-ID words in conforming streams reported exactly at their offsets; (3) excess-padding fault mid-continuation / before a stop page: one payload error at the RDH, nothing inside the payload, next packet judged from the initial state (no further error / DDW0 judged as IHW).",
+        note="The chunking itself is a pure function: its sweep is workload randomisation inside the simulator; the fault-and-recovery half is the simulation-specific part."),
+    "C16": dict(level="exploration", ref="DESIGN.md §3 C16",
+        text="Input classes (clean, k errors, mid-stream fatal framing error, non-ALICE, missing file, empty) x check modes x -E n x display options (-m, -w code lists incl. prefixes of other codes, -e N), each run under its own schedule; invalid option combinations through the real clap parser + validate_args. Oracle: exit-status table; Total Errors (report) == total_errors (file) == messages shown; -m/-w change only the display; -e N shows at most N; rejected command lines write nothing.",
+        note="The exit status is produced by the real util::lib::exit; the driver sim_main is a transcription of init::run."),
+    "C19": dict(level="exploration", ref="DESIGN.md §3 C19",
+        text="Arbitrary-header streams with random ITS words (all flag combinations) and conforming streams x three views x filters x file/pipe x schedules x short writes; rows parsed back: offsets, raw bytes, decoded attributes against a reference decoding from the documented bit layouts; styled == unstyled content; conforming data shows no error.",
+        note="Trigger-kind priorities (SOC > SOT > HB > PhT; TDH: SOC > Internal > PhT) are taken as documented behaviour pinned by the repository's view tests."),
 }
 
 NOT_BUILT_REASON = "check not built yet in this session (planned in DESIGN.md §3); not claimed until its machinery exists"
